@@ -60,6 +60,8 @@ def check(prog, rep, tier):
                       'or configuration state (registries are filled by decorators at import only)')
     rep.rule('R10.e', 'clean close: once the session is Idle (closed, restart pending) further input in the same '
                       'chunk produces no message, no second close and no state change')
+    rep.rule('R10.g', 'a well-framed message whose decoder raises is still consumed (it must not change how the '
+                      'messages after it are decoded)')
     rep.rule('R10.f', 'no endless loop in the OPEN decoder (loop progress, as C11 R11.a; UPDATE decoders are C11)')
     rep.assumptions += ['resource exhaustion other than non-termination (C11) is not decided',
                         'struct.unpack on truncated data and the opaque Update.parse/construct are modelled as '
@@ -185,6 +187,32 @@ def check(prog, rep, tier):
                 found='no path delivers a decoded UPDATE', key='update-path')
     else:
         rep.ok('R10.c', 'update-path', file=PROTO)
+
+    # ---------------------------------------------------------------- R10.g
+    seen_g = {}
+    for state in ORDER:
+        for r in tab.get('WIRE', state):
+            if r.kind == 'raise' or r.wire['cls'] not in ('OPEN', 'UPDATE', 'NOTIFICATION', 'ROUTEREFRESH', 'KEEPALIVE'):
+                continue
+            raised = any(f.startswith(('short-unpack@', 'opaque-raise@')) for f in r.flags)
+            errev = any(e[0] == 'fsm' and e[1] in ('header_error', 'open_message_error') for e in r.events)
+            if not raised or errev:
+                continue
+            name = 'consumed-after-raise:%s@%s' % (r.wire['cls'], state)
+            bw = [w for w in r.st.writes if w[1] == '_receive_buffer']
+            ret = cval(r.val)
+            if ret is True and len(bw) == 1:
+                if name not in seen_g:
+                    seen_g[name] = 'ok'
+                    rep.ok('R10.g', name, file=PROTO, line=common.row_line(r))
+            elif seen_g.get(name) != 'bad':
+                seen_g[name] = 'bad'
+                rep.bad('R10.g', name, file=PROTO, line=common.row_line(r), func='BGP.parse_buffer',
+                        found='the decoder raised on this message; parse_buffer returns %r and consumes it %d time(s): '
+                              'the message stays at the head of the buffer and every later message is stuck behind it'
+                              % (ret, len(bw)), expected='consume the message, return True', key=name, path=r.describe())
+    if not seen_g:
+        rep.undecided('R10.g', 'consumed-after-raise', found='no row in which a decoder raises')
 
     # ---------------------------------------------------------------- R10.e
     from .. import profile as P
